@@ -1,5 +1,7 @@
 import PsV.Generated.Dispatch
 import PsV.Proofs.Lanes
+import PsV.Proofs.Odometer
+import Mathlib.Algebra.BigOperators.Group.List.Defs
 /-!
 # C03 — the evaluation result is independent of the evaluation path selected
 
@@ -10,8 +12,14 @@ import PsV.Proofs.Lanes
 * `C03_value_lane`, `C03_deriv_lane`: the value / derivative rows of the gradient code are,
   operation for operation, those of plain evaluation — for every arithmetic (`Arith` instance, no
   laws), hence bit-identical.
-The loop bodies of the templated cores are compared with the generic core bitwise in the real
-binary by the correspondence check (both template modes, as-shipped and sanitizer flags).
+* `C03_generic_loop_is_walk`, `C03_templated_loop_is_generic`, `C03_selected_core_eq_generic`: the odometer
+  loops as written (`while(true){chunk; if(++n==nchunks) break; advance}` of the generic core,
+  `for(n<nchunks-1){chunk; advance} chunk` of the templated cores, carry loop and incremental
+  `basis_tree` update included — `PsV.Model.Walk`) equal the nested block walk for every arithmetic,
+  and the routine `get_evaluator` selects has the table's chunk count; so it computes, bit for bit,
+  what the generic core computes.
+The loop bodies are additionally compared bitwise in the real binary by the correspondence check (both
+template modes, as-shipped and sanitizer flags).
 -/
 namespace PsV
 open Dispatch
@@ -124,6 +132,64 @@ theorem C03_value_lane {α : Type} [Arith α] (t : Int → α) (nknots : Nat) (x
 theorem C03_deriv_lane {α : Type} [Arith α] (t : Int → α) (nknots : Nat) (x : α) (left : Int) (n : Nat) :
     (bsplineNonzero t nknots x left n).2 = bsplineDerivNonzero t nknots x left n :=
   bsplineNonzero_derivs t nknots x left n
+
+/-- the generic core's loop, as written, is the nested block walk (any arithmetic) -/
+theorem C03_generic_loop_is_walk {α : Type} [Arith α] (coef : Int → α) (ds : List (ODim α)) (last : List α) (start : Int) :
+    coreGeneric coef ds last start =
+      walk coef (ds.reverse.map rowOf ++ [(1, last)]) (Arith.rnd Arith.one) start (Arith.rnd Arith.zero) :=
+  coreGeneric_eq_walk coef ds last start
+
+/-- a templated core whose compile-time chunk count is the table's computes what the generic core computes -/
+theorem C03_templated_loop_is_generic {α : Type} [Arith α] (coef : Int → α) (ds : List (ODim α)) (last : List α)
+    (start : Int) (nchunks : Nat) (h : nchunks = nchunksOf ds) :
+    coreTemplated coef ds last start nchunks = coreGeneric coef ds last start :=
+  coreTemplated_eq_generic coef ds last start nchunks h
+
+/-- chunk count a routine derives from its template arguments (`orders` = the table's, most significant first) -/
+def templateChunks (orders : List Nat) : Routine → Nat
+  | .generic => (orders.dropLast.map (· + 1)).prod
+  | .coreD _ => (orders.dropLast.map (· + 1)).prod
+  | .fixedOrder D O => (O + 1) ^ (D - 1)
+  | .knownOrder os => (os.dropLast.map (· + 1)).prod
+
+theorem nchunksOf_eq_prod {α : Type} : ∀ (ds : List (ODim α)),
+    nchunksOf ds = (ds.reverse.map fun d => d.order + 1).prod := by
+  intro ds
+  induction ds with
+  | nil => rfl
+  | cons d R ih => simp [nchunksOf, ih, Nat.mul_comm]
+
+theorem templateChunks_compat (orders : List Nat) (r : Routine) (h : Compat orders r) :
+    templateChunks orders r = (orders.dropLast.map (· + 1)).prod := by
+  cases r with
+  | generic => rfl
+  | coreD D => rfl
+  | fixedOrder D O =>
+    obtain ⟨hD, hO⟩ := h
+    simp only [templateChunks]
+    have : orders.dropLast.map (· + 1) = List.replicate (D - 1) (O + 1) := by
+      apply List.eq_replicate_iff.mpr
+      constructor
+      · simp [hD]
+      · intro b hb
+        simp only [List.mem_map] at hb
+        obtain ⟨o, ho, rfl⟩ := hb
+        rw [hO o (List.dropLast_subset _ ho)]
+    rw [this, List.prod_replicate]
+  | knownOrder os => simp only [templateChunks]; rw [h]
+
+/-- **Selected core = generic core.**  For every table (outer dimensions `ds`, least significant first, whose
+orders are those of `orders` without its last entry), the scalar routine that `get_evaluator` selects
+according to the table regenerated from the source runs the templated loop with the table's chunk
+count, hence returns exactly what the generic core returns — for every arithmetic. -/
+theorem C03_selected_core_eq_generic {α : Type} [Arith α] (coef : Int → α) (ds : List (ODim α)) (last : List α)
+    (start : Int) (orders : List Nat) (hds : ds.reverse.map (·.order) = orders.dropLast) (s v : Routine)
+    (h : getEvaluator Gen.templatedEntries Gen.templatedOverrides orders = some (s, v)) :
+    coreTemplated coef ds last start (templateChunks orders s) = coreGeneric coef ds last start := by
+  apply coreTemplated_eq_generic
+  rw [templateChunks_compat orders s (C03_dispatch_sound_templated orders s v h).1, nchunksOf_eq_prod, ← hds]
+  simp only [List.map_map]
+  rfl
 
 /-- Non-vacuity: the generated table does select specialised routines. -/
 example : getEvaluator Gen.templatedEntries Gen.templatedOverrides [2, 2, 2] = some (.fixedOrder 3 2, .fixedOrder 3 2) ∧
